@@ -103,6 +103,11 @@ func (g *GRU) Apply(inputs []tensor.Tensor) ([]tensor.Tensor, error) {
 	prevH := inputs[5]
 	if prevH == nil {
 		prevH = ops.ZeroTensor(1, batchSize, g.hiddenSize)
+	} else {
+		var ok bool
+		if prevH, ok = prevH.Clone().(tensor.Tensor); !ok {
+			return nil, ops.ErrTypeAssert("tensor.Tensor", prevH)
+		}
 	}
 
 	// Extract the shape of the hidden dimensions without the bidirectional dimension, as
